@@ -175,57 +175,121 @@ func RuleO1(c *Ctx) {
 		sc.Violation("rules-pass", "-", "no rules-only pass over core.userTypes exists")
 		return
 	}
-	// (b) the pass dominates every loading call of the same function
+	// (b) the pass dominates every loading call of the function it is in, and - when the
+	// pass lives in a helper that runs it unconditionally - of every function that calls
+	// that helper (the call of the helper then stands for the pass), up to three levels
+	type passAt struct {
+		decl *ast.FuncDecl
+		pk   *pkgT
+		at   ast.Node // the iterator call, or the call of the helper containing it
+		skip ast.Node // sub-tree that is the pass itself (not judged)
+	}
+	var work []passAt
 	for _, p := range passes {
-		cs := p.cs
-		info := cs.Pk.TypesInfo
-		outerBody := cs.Decl.Body
-		cf := c.CFG(cs.Pk, outerBody)
-		m := 0
-		ast.Inspect(outerBody, func(x ast.Node) bool {
-			call, ok := x.(*ast.CallExpr)
-			if !ok || call == p.call {
-				return true
+		work = append(work, passAt{p.cs.Decl, p.cs.Pk, p.call, p.cs.Lit})
+	}
+	seenDecl := map[*ast.FuncDecl]bool{}
+	for level := 0; level < 4 && len(work) > 0; level++ {
+		var next []passAt
+		for _, w := range work {
+			if seenDecl[w.decl] {
+				continue
 			}
-			// skip calls inside the rule pass literal itself
-			if cs.Lit.Pos() <= call.Pos() && call.End() <= cs.Lit.End() {
-				return true
-			}
-			loads := false
-			if nm, ok := isSchemaMethod(info, call); ok && loading[nm] {
-				loads = true
-			}
-			if g := Callee(info, call); g != nil && c.P.Decl(g) != nil && reaches(g, 0) {
-				loads = true
-			}
-			// a loading call inside another literal: judge the iterator call that receives the literal
-			if !loads {
-				return true
-			}
-			at := ast.Node(call)
-			if lit := innermostBody(cs.Decl, call).lit; lit != nil {
-				if outer := callReceivingLit(cs.Decl, lit); outer != nil {
-					at = outer
+			seenDecl[w.decl] = true
+			info := w.pk.TypesInfo
+			cf := c.CFG(w.pk, w.decl.Body)
+			m := 0
+			ast.Inspect(w.decl.Body, func(x ast.Node) bool {
+				call, ok := x.(*ast.CallExpr)
+				if !ok || ast.Node(call) == w.at {
+					return true
 				}
-			}
-			m++
-			key := fmt.Sprintf("dominates:%s:%s#%d", c.P.DeclName(cs.Decl), types.ExprString(call.Fun), m)
-			before := false
-			cf.Before(at, func(nd ast.Node) {
-				ast.Inspect(nd, func(y ast.Node) bool {
-					if y == ast.Node(p.call) {
-						before = true
+				if w.skip != nil && w.skip.Pos() <= call.Pos() && call.End() <= w.skip.End() {
+					return true
+				}
+				loads := false
+				if nm, ok := isSchemaMethod(info, call); ok && loading[nm] {
+					loads = true
+				}
+				if g := Callee(info, call); g != nil && c.P.Decl(g) != nil && reaches(g, 0) {
+					loads = true
+				}
+				if !loads {
+					return true
+				}
+				at := ast.Node(call)
+				if lit := innermostBody(w.decl, call).lit; lit != nil {
+					if outer := callReceivingLit(w.decl, lit); outer != nil {
+						at = outer
+					}
+				}
+				m++
+				key := fmt.Sprintf("dominates:%s:%s#%d", c.P.DeclName(w.decl), types.ExprString(call.Fun), m)
+				before := false
+				cf.Before(at, func(nd ast.Node) {
+					ast.Inspect(nd, func(y ast.Node) bool {
+						if y == w.at {
+							before = true
+						}
+						return true
+					})
+				})
+				if before {
+					sc.Holds(key, c.P.Pos(call.Pos()), "runs after the rules pass on every path")
+				} else {
+					sc.Violation(key, c.P.Pos(call.Pos()), "a call that can load a user-type schema is not dominated by the pass that adds the enum rules to all user types")
+				}
+				return true
+			})
+			// does this function run the pass on every path to a success return?
+			always := true
+			inspectNoLit(w.decl.Body, func(x ast.Node) bool {
+				ret, ok := x.(*ast.ReturnStmt)
+				if !ok {
+					return true
+				}
+				inRet := false
+				ast.Inspect(ret, func(y ast.Node) bool {
+					if y == w.at {
+						inRet = true
 					}
 					return true
 				})
+				if inRet {
+					return true
+				}
+				if n := len(ret.Results); n > 0 {
+					if tv, has := info.Types[ret.Results[n-1]]; has && !tv.IsNil() && isErrorLike(tv.Type) {
+						return true // an error return
+					}
+				}
+				genStmt := func(nd ast.Node) bool {
+					hit := false
+					ast.Inspect(nd, func(y ast.Node) bool {
+						if y == w.at {
+							hit = true
+						}
+						return true
+					})
+					return hit
+				}
+				if !cf.MustAt(ret, nil, genStmt, nil) {
+					always = false
+				}
+				return true
 			})
-			if before {
-				sc.Holds(key, c.P.Pos(call.Pos()), "runs after the rules pass on every path")
-			} else {
-				sc.Violation(key, c.P.Pos(call.Pos()), "a call that can load a user-type schema is not dominated by the pass that adds the enum rules to all user types")
+			self, _ := info.Defs[w.decl.Name].(*types.Func)
+			if !always || self == nil {
+				continue
 			}
-			return true
-		})
+			for _, cs := range c.callSitesOf(self) {
+				if cs.Decl == w.decl {
+					continue
+				}
+				next = append(next, passAt{cs.Decl, cs.Pk, cs.Call, nil})
+			}
+		}
+		work = next
 	}
 }
 
